@@ -4,10 +4,15 @@ import AslModel.Spec.Report
 # C02, part "channels and passes" – theorems over `Model/ErrChan.lean`
 
 For **all** configurations (listing to console / file / none, `-Werror`, `-w`, `-maxerrors`, `-Y`),
-all programs of the statement language and all machine states:
+all programs of the statement language (incl. `EXPECT` / `ENDEXPECT` blocks, nested, lone or left open, and the
+end-of-pass check) and all machine states:
 
 * `C02_chan_emitted_once`   – `WrErrorString` shows every diagnostic exactly once on
                                console ∪ error channel, whatever `ListOn` and the listing mode are;
+* `C02_chan_filtered_frame` – a message dropped by a filter of `WrXErrorPos` (`EXPECT` list, `-w`) changes no counter:
+                               not `ErrorCount`, not `WarnCount`, not `JmpErrors`, nothing shown – for every state;
+* `C02_chan_unfiltered_counted` – a message that passes the filters is shown once, with the class of its number, and
+                               1370 / 1910 are the jump messages; the `EXPECT` list is untouched;
 * `C02_chan_pass_counts`    – at every point of a pass that started with `JmpErrors = 0`:
                                `ErrorCount = emitted errors − forgotten`, `WarnCount = emitted warnings`
                                (while the counters fit), only jump messages are ever forgotten and
@@ -133,25 +138,6 @@ theorem wrJmpError_inv (c : Cfg) (j0 : Nat) (m : M) (h : PInv c j0 m) : PInv c j
   · intro hy; rw [hf.2.2]
     cases hr : m.repass <;> simp only [Bool.false_eq_true, if_false, if_true] <;> exact h.noY hy
 
-theorem wrDiag_inv (c : Cfg) (j0 : Nat) (m : M) (d : Diag) (h : PInv c j0 m) : PInv c j0 (wrDiag c m d) := by
-  cases d <;> simp only [wrDiag]
-  · unfold wrNumWarning; split
-    · exact h
-    · exact wrErrorString_inv c j0 m _ _ h
-  · exact wrErrorString_inv c j0 m _ _ h
-  · exact wrErrorString_inv c j0 m _ _ h
-  · exact wrErrorString_inv c j0 m _ _ h
-
-theorem wrNumWarning_inv (c : Cfg) (j0 : Nat) (m : M) (h : PInv c j0 m) : PInv c j0 (wrNumWarning c m) := by
-  unfold wrNumWarning; split
-  · exact h
-  · exact wrErrorString_inv c j0 m _ _ h
-
-theorem repassMsg_inv (c : Cfg) (j0 : Nat) (m : M) (h : PInv c j0 m) : PInv c j0 (repassMsg c m) := by
-  unfold repassMsg; split
-  · exact wrNumWarning_inv c j0 m h
-  · exact h
-
 /-- changing only fields the invariant does not mention -/
 theorem PInv.congr {c : Cfg} {j0 : Nat} {m m' : M} (h : PInv c j0 m)
     (h1 : m'.errCnt = m.errCnt) (h2 : m'.warnCnt = m.warnCnt) (h3 : m'.forgotten = m.forgotten)
@@ -161,6 +147,115 @@ theorem PInv.congr {c : Cfg} {j0 : Nat} {m m' : M} (h : PInv c j0 m)
   have e2 : emWarn m' = emWarn m := by simp [emWarn, h6, h7]
   exact ⟨by rw [h1, h3, e1]; exact h.err, by rw [h1]; exact h.errLt, by rw [h2, e2]; exact h.warn,
          by rw [h4, h3, h5]; exact h.forg, by rw [h5, e1]; exact h.jmp, fun hy => by rw [h3]; exact h.noY hy⟩
+
+/-- **A filtered message changes no counter** (`WrXErrorPos`, for every configuration, state and message number):
+a message that is swallowed by `EXPECT` or dropped by `-w` is shown nowhere and leaves `ErrorCount`, `WarnCount`,
+`JmpErrors`, the number of jump messages and of forgotten errors as they were – in particular an expected
+1370 / 1910 is not a "questionable jump error" that `-Y` could take off the counter later. -/
+theorem C02_chan_filtered_frame (c : Cfg) (m : M) (num : Nat) (h : isFiltered c m num = true) :
+    let r := wrXErrorPos c m num
+    r.errCnt = m.errCnt ∧ r.warnCnt = m.warnCnt ∧ r.jmpErrors = m.jmpErrors ∧ r.jmpMsgs = m.jmpMsgs ∧
+    r.forgotten = m.forgotten ∧ r.con = m.con ∧ r.chan = m.chan ∧ r.lst = m.lst ∧ r.fatal = m.fatal ∧
+    r.filtered = m.filtered + 1 := by
+  intro r
+  simp only [r, wrXErrorPos]
+  unfold isFiltered at h
+  cases ht : takeExpect m.expects num with
+  | some l => simp
+  | none =>
+    rw [ht] at h
+    simp only [Option.isSome_none, Bool.false_or] at h
+    simp [h]
+
+/-- **An unfiltered message is counted and shown exactly once**: what `WrXErrorPos` does with a message that passed
+both filters – the class follows the number, 1370 / 1910 are noted as jump messages. -/
+theorem C02_chan_unfiltered_counted (c : Cfg) (m : M) (num : Nat) (h : isFiltered c m num = false) :
+    let r := wrXErrorPos c m num
+    let w := isWarn c (decide (num < 1000)) (decide (num ≥ 10000))
+    emErr r = emErr m + (if w then 0 else 1) ∧ emWarn r = emWarn m + (if w then 1 else 0) ∧
+    r.jmpMsgs = m.jmpMsgs + (if isJmpNum num then 1 else 0) ∧ r.filtered = m.filtered ∧ r.expects = m.expects := by
+  intro r w
+  unfold isFiltered at h
+  simp only [Bool.or_eq_false_iff] at h
+  have ht : takeExpect m.expects num = none := by
+    cases hh : takeExpect m.expects num with
+    | none => rfl
+    | some l => rw [hh] at h; simp at h
+  have hr : r = if isJmpNum num then wrJmpError c m else wrErrorString c m (decide (num < 1000)) (decide (num ≥ 10000)) := by
+    simp only [r, wrXErrorPos, ht, h.2]; simp
+  cases hj : isJmpNum num
+  · rw [hj] at hr; simp only [Bool.false_eq_true, if_false] at hr
+    have he := C02_chan_emitted_once c m (decide (num < 1000)) (decide (num ≥ 10000))
+    have hf := wrErrorString_frame c m (decide (num < 1000)) (decide (num ≥ 10000))
+    rw [hr]
+    refine ⟨he.1, he.2, by simp [hf.2.1], ?_, ?_⟩ <;> simp [wrErrorString]
+  · rw [hj] at hr; simp only [if_true] at hr
+    have hnum : num = 1370 ∨ num = 1910 := by
+      simp only [isJmpNum, Bool.or_eq_true, beq_iff_eq] at hj; exact hj
+    have hw : w = false := by
+      rcases hnum with rfl | rfl <;> simp [w, isWarn]
+    rw [hr, hw]
+    have he := C02_chan_emitted_once c (({ (if m.repass then m else { m with jmpErrors := m.jmpErrors + 1 }) with
+      jmpMsgs := (if m.repass then m else { m with jmpErrors := m.jmpErrors + 1 }).jmpMsgs + 1 })) false false
+    have hf := wrErrorString_frame c (({ (if m.repass then m else { m with jmpErrors := m.jmpErrors + 1 }) with
+      jmpMsgs := (if m.repass then m else { m with jmpErrors := m.jmpErrors + 1 }).jmpMsgs + 1 })) false false
+    have hw2 : isWarn c false false = false := by simp [isWarn]
+    simp only [hw2, Bool.false_eq_true, if_false] at he
+    unfold wrJmpError
+    simp only [Bool.false_eq_true, if_false, if_true]
+    refine ⟨?_, ?_, ?_, ?_, ?_⟩
+    · rw [he.1]; cases m.repass <;> simp [emErr]
+    · rw [he.2]; cases m.repass <;> simp [emWarn]
+    · rw [hf.2.1]; cases m.repass <;> simp
+    · cases m.repass <;> simp [wrErrorString]
+    · cases m.repass <;> simp [wrErrorString]
+
+theorem wrXErrorPos_inv (c : Cfg) (j0 : Nat) (m : M) (num : Nat) (h : PInv c j0 m) : PInv c j0 (wrXErrorPos c m num) := by
+  unfold wrXErrorPos
+  split
+  · exact h.congr rfl rfl rfl rfl rfl rfl rfl
+  · split
+    · exact h.congr rfl rfl rfl rfl rfl rfl rfl
+    · split
+      · exact wrJmpError_inv c j0 m h
+      · exact wrErrorString_inv c j0 m _ _ h
+
+theorem wrNumWarning_inv (c : Cfg) (j0 : Nat) (m : M) (h : PInv c j0 m) : PInv c j0 (wrNumWarning c m) :=
+  wrXErrorPos_inv c j0 m _ h
+
+theorem wrDiag_inv (c : Cfg) (j0 : Nat) (m : M) (d : Diag) (h : PInv c j0 m) : PInv c j0 (wrDiag c m d) := by
+  cases d <;> simp only [wrDiag]
+  · exact wrNumWarning_inv c j0 m h
+  · exact wrErrorString_inv c j0 m _ _ h
+  · exact wrErrorString_inv c j0 m _ _ h
+  · exact wrErrorString_inv c j0 m _ _ h
+
+theorem repassMsg_inv (c : Cfg) (j0 : Nat) (m : M) (num : Nat) (h : PInv c j0 m) : PInv c j0 (repassMsg c m num) := by
+  unfold repassMsg; split
+  · exact wrXErrorPos_inv c j0 m _ h
+  · exact h
+
+theorem drainExpects_inv (c : Cfg) (j0 : Nat) (f : Nat) : ∀ (m : M), PInv c j0 m → PInv c j0 (drainExpects c f m) := by
+  induction f with
+  | zero => intro m h; exact h
+  | succ f ih =>
+    intro m h
+    unfold drainExpects
+    split
+    · exact h
+    · split
+      · exact h
+      · exact ih _ (wrXErrorPos_inv c j0 _ _ (h.congr rfl rfl rfl rfl rfl rfl rfl))
+
+theorem passExit_inv (c : Cfg) (j0 : Nat) (m : M) (h : PInv c j0 m) : PInv c j0 (passExit c m) := by
+  unfold passExit
+  split
+  · exact h
+  · have h1 : PInv c j0 (if m.inExpect then wrXErrorPos c m 2150 else m) := by
+      split
+      · exact wrXErrorPos_inv c j0 m _ h
+      · exact h
+    exact h1.congr rfl rfl rfl rfl rfl rfl rfl
 
 theorem symbolAdder_inv (c : Cfg) (j0 : Nat) (m : M) (n v : Nat) (h : PInv c j0 m) :
     PInv c j0 (symbolAdder c m n v) := by
@@ -192,7 +287,7 @@ theorem lookup_inv (c : Cfg) (j0 : Nat) (m : M) (n : Nat) (h : PInv c j0 m) : PI
   split
   · exact h
   · split
-    · exact repassMsg_inv c j0 _ (h.congr rfl rfl rfl rfl rfl rfl rfl)
+    · exact repassMsg_inv c j0 _ _ (h.congr rfl rfl rfl rfl rfl rfl rfl)
     · exact h
 
 theorem step_inv (c : Cfg) (j0 : Nat) (m : M) (s : Stmt) (h : PInv c j0 m) : PInv c j0 (step c m s) := by
@@ -208,6 +303,20 @@ theorem step_inv (c : Cfg) (j0 : Nat) (m : M) (s : Stmt) (h : PInv c j0 m) : PIn
       split
       · exact wrErrorString_inv c j0 m _ _ h
       · exact h.congr rfl rfl rfl rfl rfl rfl rfl
+    | num n => exact wrXErrorPos_inv c j0 m n h
+    | expect ns =>
+      simp only
+      split
+      · exact wrXErrorPos_inv c j0 m _ h
+      · exact h.congr rfl rfl rfl rfl rfl rfl rfl
+    | endexpect =>
+      simp only
+      split
+      · exact wrXErrorPos_inv c j0 m _ h
+      · have hd := drainExpects_inv c j0 m.expects.length m h
+        split
+        · exact hd
+        · exact hd.congr rfl rfl rfl rfl rfl rfl rfl
     | label n => exact symbolAdder_inv c j0 m n _ h
     | equ n v => exact symbolAdder_inv c j0 m n v h
     | fill k => exact h.congr rfl rfl rfl rfl rfl rfl rfl
@@ -216,15 +325,15 @@ theorem step_inv (c : Cfg) (j0 : Nat) (m : M) (s : Stmt) (h : PInv c j0 m) : PIn
       have hl := lookup_inv c j0 m n h
       split
       · rename_i heq; rw [heq] at hl; exact hl.congr rfl rfl rfl rfl rfl rfl rfl
-      · rename_i heq; rw [heq] at hl; exact wrErrorString_inv c j0 _ _ _ hl
+      · rename_i heq; rw [heq] at hl; exact wrXErrorPos_inv c j0 _ _ hl
     | branch k n =>
       simp only
       have hl := lookup_inv c j0 m n h
       split
       · rename_i heq; rw [heq] at hl
         cases k <;> simp only <;> split <;>
-          first | exact hl.congr rfl rfl rfl rfl rfl rfl rfl | exact wrJmpError_inv c j0 _ hl
-      · rename_i heq; rw [heq] at hl; exact wrErrorString_inv c j0 _ _ _ hl
+          first | exact hl.congr rfl rfl rfl rfl rfl rfl rfl | exact wrXErrorPos_inv c j0 _ _ hl
+      · rename_i heq; rw [heq] at hl; exact wrXErrorPos_inv c j0 _ _ hl
 
 theorem initPass_inv (c : Cfg) (org : Nat) (m : M) : PInv c m.jmpErrors (initPass org m) := by
   unfold initPass
@@ -237,7 +346,7 @@ theorem foldl_inv (c : Cfg) (j0 : Nat) (p : List Stmt) (m : M) (h : PInv c j0 m)
 
 /-- the invariant holds at the end of every pass, for every program and every start state -/
 theorem runPass_inv (c : Cfg) (org : Nat) (p : List Stmt) (m : M) : PInv c m.jmpErrors (runPass c org p m) :=
-  foldl_inv c _ p _ (initPass_inv c org m)
+  passExit_inv c _ _ (foldl_inv c _ p _ (initPass_inv c org m))
 
 /-- **Totals of a pass = emitted − forgotten.**  In a pass that started with `JmpErrors = 0` and whose
 error / warning messages stay below the counter range: `ErrorCount` is the number of error messages
@@ -392,12 +501,36 @@ example : (invoke { width := 32 } 30 [(4096, transient)]).map (fun r => (r.2, r.
     some (2, [(false, 1, 2)]) := by decide +kernel
 example : (invoke { width := 32, throwY := true } 30 [(4096, transient)]).map (fun r => (r.2, r.1.map fun o => (o.codeFile, o.sumErr, o.passes.map (·.forgotten)))) =
     some (0, [(true, 0, [0, 1, 0, 0])]) := by decide +kernel
-example : FitsOut { width := 32, throwY := true } [⟨{}, ⟨1, 0⟩, 1, 1⟩, ⟨{}, {}, 0, 0⟩] := by
+example : FitsOut { width := 32, throwY := true } [⟨{}, ⟨1, 0⟩, 1, 1, 0⟩, ⟨{}, {}, 0, 0, 0⟩] := by
   intro q hq; simp only [List.mem_cons, List.mem_nil_iff, or_false] at hq; rcases hq with rfl | rfl <;> decide
 example : emErr (runPass { width := 32, listMode := .console } 0 [.listing 0, .diag .error, .listing 1, .diag .uwarning] {}) = 1 ∧
     (runPass { width := 32, listMode := .console } 0 [.listing 0, .diag .error, .listing 1, .diag .uwarning] {}).chan.err = 1 ∧
     (runPass { width := 32, listMode := .console } 0 [.listing 0, .diag .error, .listing 1, .diag .uwarning] {}).con.warn = 1 := by decide +kernel
 example : (runPass { width := 32, throwY := true } 4096 transient (runPass { width := 32, throwY := true } 4096 transient {})).errCnt = 0 ∧
     (runPass { width := 32, throwY := true } 4096 transient (runPass { width := 32, throwY := true } 4096 transient {})).forgotten = 1 := by decide +kernel
+
+/-- a backward branch over 210 bytes announced by `EXPECT 1370`, then a load that shrinks in pass 2 and a label that
+therefore moves: the announced error is swallowed in each of the three passes (`filtered = 1`), nothing is emitted,
+nothing is forgotten under `-Y`, the file ends with 0 errors and keeps its code file -/
+def expectedBackward : List Stmt :=
+  [.label 1, .fill 210, .expect [1370], .branch .rel8 1, .endexpect, .load 2, .label 3, .fill 1, .equ 2 16]
+
+example : (invoke { width := 32, throwY := true } 30 [(32768, expectedBackward)]).map
+    (fun r => (r.2, r.1.map fun o => (o.codeFile, o.sumErr, o.passes.map fun p => p.con.err + p.chan.err + p.forgotten))) =
+    some (0, [(true, 0, [0, 0, 0])]) := by decide +kernel
+example : (invoke { width := 32, throwY := true } 30 [(32768, expectedBackward)]).map
+    (fun r => r.1.map fun o => o.passes.map (·.filtered)) = some [[1, 1, 1]] := by decide +kernel
+/-- the hypothesis of `C02_chan_filtered_frame` at the branch of that program, and of `C02_chan_unfiltered_counted`
+without the announcement -/
+example : isFiltered { width := 32, throwY := true } { expects := [1370], inExpect := true } 1370 = true := by decide
+example : isFiltered { suppWarns := true } {} 290 = true ∧ isFiltered { suppWarns := true } {} 1370 = false ∧
+    isFiltered {} { expects := [1910, 290] } 1370 = false := by decide
+/-- an expectation that is not met costs one error 2130 per waiting number; `EXPECT` comes before `-w`: an announced
+warning is taken off the list even when `-w` would have dropped it anyway -/
+example : (runPass { width := 32 } 0 [.expect [1370, 290], .num 290, .endexpect] {}).errCnt = 1 ∧
+    (runPass { width := 32, suppWarns := true } 0 [.expect [290], .num 290, .endexpect, .num 290] {}).errCnt = 0 ∧
+    (runPass { width := 32, suppWarns := true } 0 [.expect [290], .num 290, .endexpect, .num 290] {}).filtered = 2 ∧
+    (runPass { width := 32 } 0 [.expect [1200], .num 1200] {}).errCnt = 1 ∧
+    (runPass { width := 32 } 0 [.endexpect, .expect [5], .expect [6], .num 5, .endexpect] {}).errCnt = 2 := by decide +kernel
 
 end AslModel.C02Chan
